@@ -688,6 +688,10 @@ func qGenAtom(rt *rapid.T, refs []qColRef) string {
 		}
 	}
 	c := r.col()
+	isDec := c.Kind == qkDec
+	if isDec {
+		qDecAtoms++
+	}
 	forms := []string{"cmp", "cmp", "cmp", "between", "in", "isnull", "notnull"}
 	if c.Kind.isString() {
 		forms = append(forms, "like", "like")
@@ -700,6 +704,17 @@ func qGenAtom(rt *rapid.T, refs []qColRef) string {
 		return fmt.Sprintf("%s %s %s", r.Expr, rapid.SampledFrom([]string{"=", "<>", "<=>"}).Draw(rt, "op"), qLitFor(rt, r))
 	case "cmp":
 		op := rapid.SampledFrom([]string{"=", "=", "<>", "<", "<=", ">", ">=", "<=>"}).Draw(rt, "op")
+		if isDec && op == "<>" {
+			qDecNeg()
+			op = "="
+		}
+		if op == "<=>" && c.Kind.caseInsensitive() {
+			// grammar exclusion: go-mysql-server evaluates `<=>` bytewise when it is a filter but by
+			// collation when it becomes an index range (both engines; they differ only when their
+			// planners pick different plans)
+			qExcludedLits["nullsafe_equal_on_ci_column"]++
+			op = "="
+		}
 		lit := qLitFor(rt, r)
 		if c.Kind.joinClass() == "int" && rapid.IntRange(0, 19).Draw(rt, "declit") == 0 {
 			lit = rapid.SampledFrom([]string{"2.5", "-0.5", "3.0", "11.75"}).Draw(rt, "declitv")
@@ -709,6 +724,10 @@ func qGenAtom(rt *rapid.T, refs []qColRef) string {
 		not := ""
 		if rapid.IntRange(0, 5).Draw(rt, "not") == 0 {
 			not = "NOT "
+			if isDec {
+				qDecNeg()
+				not = ""
+			}
 		}
 		return fmt.Sprintf("%s %sBETWEEN %s AND %s", r.Expr, not, qLitFor(rt, r), qLitFor(rt, r))
 	case "in":
@@ -723,6 +742,10 @@ func qGenAtom(rt *rapid.T, refs []qColRef) string {
 		not := ""
 		if rapid.IntRange(0, 4).Draw(rt, "not") == 0 {
 			not = "NOT "
+			if isDec {
+				qDecNeg()
+				not = ""
+			}
 		}
 		return fmt.Sprintf("%s %sIN (%s)", r.Expr, not, strings.Join(ls, ","))
 	case "isnull":
@@ -746,19 +769,40 @@ func qGenAtom(rt *rapid.T, refs []qColRef) string {
 	panic("form")
 }
 
+// qDecAtoms counts the atoms over DECIMAL columns generated so far: a predicate that contains
+// one is never wrapped in NOT (grammar exclusion, see qDecNeg).
+var qDecAtoms int
+
+// qDecNeg: grammar exclusion. go-mysql-server's range builder (shared by both engines) turns a
+// negated equality on an indexed DECIMAL column (`c <> x`, NOT (c = x), NOT IN) into the range
+// (NULL, ∞); the memory engine then drops the filter and returns the rows equal to x (dolt keeps
+// the filter because it treats DECIMAL ranges as imprecise). Negated equalities on DECIMAL columns
+// are not generated; each avoided draw is counted.
+func qDecNeg() { qExcludedLits["decimal_negated_equality"]++ }
+
 func qGenPred(rt *rapid.T, refs []qColRef, depth int) string {
 	if depth <= 0 || rapid.IntRange(0, 2).Draw(rt, "pred.leaf") == 0 {
+		before := qDecAtoms
 		a := qGenAtom(rt, refs)
 		if rapid.IntRange(0, 9).Draw(rt, "pred.not") == 0 {
+			if qDecAtoms != before {
+				qDecNeg()
+				return a
+			}
 			return "NOT (" + a + ")"
 		}
 		return a
 	}
 	op := rapid.SampledFrom([]string{"AND", "AND", "OR"}).Draw(rt, "pred.op")
+	before := qDecAtoms
 	l := qGenPred(rt, refs, depth-1)
 	r := qGenPred(rt, refs, depth-1)
 	s := fmt.Sprintf("(%s %s %s)", l, op, r)
 	if rapid.IntRange(0, 11).Draw(rt, "pred.not") == 0 {
+		if qDecAtoms != before {
+			qDecNeg()
+			return s
+		}
 		return "NOT " + s
 	}
 	return s
